@@ -227,9 +227,9 @@ impl DbInner {
 		}
 		log::debug!(target: "parity-db", "Opened db {:?}, metadata={:?}", options, metadata);
 		let mut options = options.clone();
-		if options.salt.is_none() {
-			options.salt = Some(metadata.salt);
-		}
+		// The columns hash with the salt of the metadata. Keep that one, whatever the caller
+		// passed: commits and administration calls use the salt kept here.
+		options.salt = Some(metadata.salt);
 
 		Ok(DbInner {
 			columns,
